@@ -574,6 +574,27 @@ func runC17Signed(c *Ctx, k0 *sm2.PrivateKey, c0 *gx509.Certificate, k1 *sm2.Pri
 				} else if err != nil {
 					rep.Violation("C17/Verify/rejects-library-built-rsa-signed-data", err.Error(), w)
 				} else {
+					if detach && n == 0 {
+						// zero-length detached content has two spellings in Go, nil and []byte{}: both are the content that was signed
+						for _, sp := range []struct {
+							name string
+							v    []byte
+						}{{"nil", nil}, {"empty-non-nil", []byte{}}} {
+							var e error
+							if pi := mon.Guard(func() {
+								p7, pe := gx509.ParsePKCS7(der)
+								if pe != nil {
+									e = pe
+									return
+								}
+								p7.Content = sp.v
+								e = p7.Verify()
+							}); pi != nil || e != nil {
+								rep.Violation("C17/Verify/rejects-detached-signature-over-empty-content/Content="+sp.name, fmt.Sprint(pi, e), w)
+							}
+							rep.Eval(cls + "/empty-content-spelled-" + sp.name)
+						}
+					}
 					if detach {
 						other := append([]byte{0x55}, content...)
 						if _, e := verify(der, other); e == nil {
